@@ -233,6 +233,11 @@ func (o *FilterOptimizer) optimizeBetweenExpr(e *BinaryOpExpr) *ScanType {
 	}
 
 	if field == KeyKW && canUseRange {
+		if bytes.Compare(lower, upper) > 0 {
+			// A reversed range matches nothing but is refused when it is
+			// evaluated, it must not narrow the scan of other clauses
+			return &ScanType{FULL, nil}
+		}
 		return &ScanType{RANGE, [][]byte{lower, upper}}
 	}
 	return &ScanType{FULL, nil}
